@@ -27,7 +27,7 @@ def run(tier, replay):
     wd = lib.workdir(PID)
     lib.build(fc.GROUP)
     quick = tier == "quick"
-    shards = [s for s in fc.filter_shards(tier) if not s["name"].startswith("tth")]
+    shards = [fc.shard("r16", [16], depth=1, leaf="full")] if replay else [s for s in fc.filter_shards(tier) if not s["name"].startswith("tth")]
     pool = ThreadPoolExecutor(max_workers=1)
     mcf = pool.submit(fc.run_mc, PID, "KFilterMC", fc.MC_TEMPLATE, shards, 4 if quick else 8,
                       600 if quick else 2400, lib.seed())
